@@ -69,7 +69,9 @@ class Ctx:
         return d
 
     def _tlc(self, d, module, cfg, args, timeout, env=None, workers=None, deque=False, xss=None):
-        jopts = []
+        tmpd = os.path.join(d, "jtmp")
+        os.makedirs(tmpd, exist_ok=True)
+        jopts = ["-Djava.io.tmpdir=" + tmpd]      # TLC unpacks its standard modules into java.io.tmpdir: keep that out of /tmp
         if deque:
             jopts.append("-Dtlc2.tool.queue.IStateQueue=StateDeque")
         if xss:
